@@ -494,6 +494,24 @@ func structTypeFor(t *TypeSpec) reflect.Type {
 			Tag: reflect.StructTag(fmt.Sprintf(`json:"%s" api:"%s"`, r.Name, tag)),
 		})
 	}
+	// The layout is a function of the spec: fields that are not part of the API (no api tag: internal state a real
+	// model struct carries) are placed among the tagged ones, and in half of the types the declaration order is
+	// not ID, attributes, relationships. Nothing in the library may depend on where a field is declared.
+	h := strSeed("layout|" + key)
+	lr := NewRNG(h, 7, 11)
+	for i, n := 0, int(h%4); i < n; i++ {
+		ft := []reflect.Type{reflect.TypeOf(0), reflect.TypeOf(""), reflect.TypeOf([]string{}), reflect.TypeOf(true), reflect.TypeOf(map[string]int{})}[lr.Intn(5)]
+		tag := []string{``, `json:"-"`, fmt.Sprintf(`json:"internal_x%d"`, i), `db:"col"`}[lr.Intn(4)]
+		at := lr.Intn(len(fields) + 1)
+		f := reflect.StructField{Name: fmt.Sprintf("X%d", i), Type: ft, Tag: reflect.StructTag(tag)}
+		fields = append(fields[:at], append([]reflect.StructField{f}, fields[at:]...)...)
+	}
+	if lr.Bool() {
+		for i := len(fields) - 1; i > 0; i-- {
+			j := lr.Intn(i + 1)
+			fields[i], fields[j] = fields[j], fields[i]
+		}
+	}
 	st := reflect.StructOf(fields)
 	structCache.Store(key, st)
 	return st
